@@ -95,6 +95,28 @@ func harvestDir(dir string) Harvested {
 				}
 			case *ast.Ident:
 				countType(x, types)
+			case *ast.BinaryExpr:
+				// sizes written as constant expressions: 1 << 20, 64 * 1024
+				if a, ok := x.X.(*ast.BasicLit); ok && a.Kind == token.INT {
+					if b, ok := x.Y.(*ast.BasicLit); ok && b.Kind == token.INT {
+						av, e1 := strconv.ParseInt(a.Value, 0, 64)
+						bv, e2 := strconv.ParseInt(b.Value, 0, 64)
+						if e1 == nil && e2 == nil {
+							var v int64 = -1
+							switch x.Op {
+							case token.SHL:
+								if bv < 40 {
+									v = av << uint(bv)
+								}
+							case token.MUL:
+								v = av * bv
+							}
+							if v >= 8 && v <= 1<<24 {
+								ints[strconv.Itoa(int(v))]++
+							}
+						}
+					}
+				}
 			case *ast.BasicLit:
 				switch x.Kind {
 				case token.STRING:
@@ -113,7 +135,7 @@ func harvestDir(dir string) Harvested {
 						if v >= 0x80 && v <= 0xff {
 							add(string([]byte{byte(v)}))
 						}
-						if v >= 8 && v <= 1<<20 {
+						if v >= 8 && v <= 1<<24 {
 							ints[strconv.Itoa(int(v))]++
 						}
 					}
@@ -221,6 +243,23 @@ func DeltaSQL() []string {
 		panic("harness: " + err.Error())
 	}
 	return caseForms(minus(Harvest().SQL, b.SQL))
+}
+
+// DeltaSQLRaw / DeltaHTMLRaw: the new literals as written only.
+func DeltaSQLRaw() []string {
+	b, err := baseline()
+	if err != nil {
+		panic("harness: " + err.Error())
+	}
+	return minus(Harvest().SQL, b.SQL)
+}
+
+func DeltaHTMLRaw() []string {
+	b, err := baseline()
+	if err != nil {
+		panic("harness: " + err.Error())
+	}
+	return minus(Harvest().HTML, b.HTML)
 }
 
 // DeltaHTML: the same for the HTML side.
